@@ -15,11 +15,9 @@ LEAN_MODULES = ["Ebv.Props.C23"]
 MODEL_MODULES = ["Ebv.Model.Parallel"]
 DRIVER = "Drivers/C23.lean"
 THEOREMS = [
-    "Ebv.C23.ethertypes_distinct", "Ebv.C23.single_installer",
+    "Ebv.C23.ethertypes_distinct", "Ebv.C23.single_installer", "Ebv.C23.fmmu_windows_disjoint",
     "Ebv.C23.installed_while_running_refuted", "Ebv.C23.installed_while_running_stale_refuted",
-    "Ebv.C23.installed_while_running_partial",
-    "Ebv.C23.fmmu_windows_disjoint_refuted", "Ebv.C23.fmmu_windows_overflow_refuted",
-    "Ebv.C23.fmmu_windows_disjoint_partial", "Ebv.C23.ethertypes_distinct_fault_refuted",
+    "Ebv.C23.installed_while_running_partial", "Ebv.C23.ethertypes_distinct_fault_refuted",
 ]
 TRUSTED = ["hand-written model Ebv.Parallel of ParallelEtherCat.run / LockFile / FMMULock, tied by exact correspondence of per-participant "
            "operation traces, final shared state, first violating prefix of each clause and the Quiet hypothesis under explicit schedules",
@@ -739,7 +737,7 @@ def predicates(case, glob):
     """defect classes as predicates on the schedule (= on the order of operations it produces)"""
     n = len(case["cfgs"])
     late = [False] * n       # last leaver: its rmdir succeeded, its remove(programs) has not happened yet
-    left = [False] * n       # has executed `leave`
+    left = [False] * n       # is past its start section and the lock-file constructors
     race = stale = rmtree = False
     for pid, t, pin_exists in glob:
         start_op = t.startswith(("mkdtemp", "open_", "rename", "rmtree_", "obj_get", "create_map", "attach", "obj_pin")) \
@@ -748,8 +746,8 @@ def predicates(case, glob):
             race = True
         if t == "rename:ok" and pin_exists:
             stale = True
-        if t == "leave":
-            left[pid] = True
+        if t in ("leave", "fm_unlock", "fm_write"):     # past FMMULock(...): from here on only the exit path follows
+            left[pid] = True                            # (the body may raise instead of reaching `leave`)
         if t == "rmdir:ok":
             late[pid] = True
         if t.startswith("remove_pin") and left[pid]:
@@ -814,7 +812,7 @@ def gen(rng):
     total = rng.randrange(20, 40 * n)
     if mode > 0.55:       # session boundary: one participant goes through a whole life cycle up to somewhere in its exit
         p = rng.randrange(n)
-        k = rng.randrange(11, 24)
+        k = rng.randrange(14, 28)
         if mode > 0.8:    # a joiner arrives early and sits in its obj_get window
             q = (p + 1) % n
             sched += [p] * 3 + [q] * rng.randrange(5, 10)
@@ -838,6 +836,8 @@ FORMER_WITNESSES = [
      "sched": [0] * 10 + [1] * 18 + [0] * 6 + [2] * 18, "fm0": None},
     {"cfgs": [C(), C(et=[12288], fm=[7]), C(et=[12288, 12289], fm=[7])],
      "sched": [0] * 12 + [1] * 18 + [0] * 6 + [2] * 18, "fm0": None},
+    {"cfgs": [C(), C(et=[12288], fm=[7]), C(et=[12288, 12289], fm=[7])],
+     "sched": [0] * 10 + [1] * 16 + [0] + [2] * 16, "fm0": None},
     # P0 asks for 1024 sync-group addresses (the last one would lie in the window of process number 2, which P1 owns)
     {"cfgs": [C(naddr=WINDOW_GROUPS), C(et=[12288], fm=[2])], "sched": [0] * 15 + [1] * 16, "fm0": None},
     {"cfgs": [C(fm=[1], naddr=WINDOW_GROUPS - 1), C(et=[12288], fm=[2])], "sched": [0] * 15 + [1] * 16, "fm0": None},
@@ -845,15 +845,15 @@ FORMER_WITNESSES = [
 
 WITNESSES = {
     # P0 is the last leaver: after its rmdir P1 installs and runs; then P0 detaches P1's dispatcher and unlinks P1's pin
-    "leaver-starter-race": {"cfgs": [C(), C(fm=[7])], "sched": [0] * 14 + [1] * 14 + [0, 0], "fm0": None},
+    "leaver-starter-race": {"cfgs": [C(), C(fm=[7])], "sched": [0] * 19 + [1] * 14 + [0, 0], "fm0": None},
     # P1 joins P0's session but its obj_get come too early; P0 runs and leaves (rmdir fails: P1's file); P1's clean-up empties the
     # lock dir, dispatcher and pin stay.  P2 renames over the empty dir, P3 joins with the OLD table and runs, P2 removes the old pin.
     # P0's netlink attach fails: its `except` path rmtree()s the lock dir together with P1's member file (ethertype 12288);
     # P2 starts a new session, P1's second obj_get succeeds and it runs; P3 draws 12288 and gets it
     "installer-fault-rmtree": {"cfgs": [C(fails=True), C(et=[12288]), C(), C(et=[12288], fm=[3])],
-                               "sched": [0] * 5 + [1] * 7 + [0] * 2 + [2] * 7 + [1] * 5 + [3] * 14, "fm0": None},
+                               "sched": [0] * 5 + [1] * 7 + [0] * 2 + [2] * 7 + [1] * 10 + [3] * 14, "fm0": None},
     "stale-programs-file": {"cfgs": [C(), C(et=[12288]), C(), C(et=[12288], fm=[3])],
-                            "sched": [0] * 3 + [1] * 8 + [0] * 11 + [1] + [2] * 3 + [3] * 14 + [2] * 2, "fm0": None},
+                            "sched": [0] * 3 + [1] * 8 + [0] * 16 + [1] + [2] * 3 + [3] * 14 + [2] * 2, "fm0": None},
 }
 
 
@@ -871,9 +871,14 @@ def kind_of(v, pr, m):
 def run(ctx):
     cases = []
     # every split point of the last-leaver race: P1 starts after k operations of P0 (k = 11 … 18), P0 continues afterwards
-    for k in range(9, 19):
+    for k in range(14, 24):
         for j in (3, 7, 14):
             cases.append({"cfgs": [C(), C(et=[12288], fm=[3])], "sched": [0] * k + [1] * j + [0] * 8 + [1] * 20, "fm0": None})
+    # the bitmap file's first opener is overtaken at every point by a second one; a third draws the same slot
+    for k in range(8, 17):
+        for j in (12, 16, 18):
+            cases.append({"cfgs": [C(), C(et=[12288], fm=[7]), C(et=[12288, 12289], fm=[7])],
+                          "sched": [0] * k + [1] * j + [0] * 7 + [1] * 4 + [2] * 18, "fm0": None})
     for _ in range(ctx.n(500, 20000)):
         cases.append(gen(ctx.rng))
     cases += [dict(w) for w in FORMER_WITNESSES]
@@ -899,14 +904,15 @@ def replay(ctx, case):
 
 LEVEL_TEXT = ("Lean 4 proof over a hand-written model of ParallelEtherCat.run with LockFile/FMMULock (one step per file-system / bpf / netlink "
               "operation, explicit schedules, any number of participants, crash = not scheduled again): ethertypes of members are pairwise "
-              "distinct and at most one participant is in the install section (invariant proofs, no injected fault); installed-while-running "
-              "and FMMU-window disjointness are REFUTED on concrete witness schedules (last-leaver/new-starter race, stale programs file after "
-              "a joiner's clean-up, create-then-initialise window of the bitmap, unbounded get_next_addr) and proved for the remainder "
-              "(no start-section operation while a last leaver is between rmdir and remove(programs) and no rename succeeding over an old "
-              "programs file => installed; bitmap file already initialised and at most 1023 get_fmmu_addr calls => windows disjoint). Tie: "
+              "distinct and at most one participant is in the install section (invariant proofs, no injected fault); the FMMU windows of "
+              "running participants are pairwise disjoint for all schedules, draws, earlier file contents and any number of get_fmmu_addr "
+              "calls (invariant proof, no hypothesis; repaired in /repo); installed-while-running is REFUTED on concrete witness schedules "
+              "(last-leaver/new-starter race, stale programs file after a joiner's clean-up) and proved for the remainder (no start-section "
+              "operation while a last leaver is between rmdir and remove(programs) and no rename succeeding over an old programs file). Tie: "
               "the real coroutines of several participant objects driven in one process over an emulated fs/bpf/netlink layer under the same "
               "schedules, exact equality of traces, final state, first violating prefixes and the theorem's schedule hypothesis.")
 LEVEL_NOTE = ("partial: trusted are the Lean kernel + standard axioms, the hand transcription (validated by differential runs, not verified), "
-              "the emulated POSIX/bpffs/netlink semantics and real process scheduling; five defect classes are known findings")
+              "the emulated POSIX/bpffs/netlink semantics and real process scheduling; three defect classes of run() are known findings, "
+              "the two FMMULock defects are fixed in /repo")
 TECHNIQUE = "Lean 4 invariant proofs over all schedules + kernel-decided refutations on witness schedules + differential schedule replay of the real code"
 DESIGN_REF = "§4 C23"
